@@ -26,8 +26,9 @@ META = {
     "stubs": ["O1: none (np.sqrt of the concrete nb(nb-1) is NumPy's)", "O3: np.linalg.svd returns fresh symbolic factors, qr/inv opaque, np.kron recorded",
               "O4: ssi.ac2mp returns symbolic eigenvalues (discrete, continuous with |lam_c| a symbol) and unit-first-component eigenvectors; "
               "np.linalg.inv returns a fixed rational matrix; Obs is a fixed generic integer matrix (it enters only through bilinear forms with dO)"],
-    "assumptions": ["the sensitivity formulas of SSI_fast / SSI_poles (implicit differentiation of SVD, QR, inverse and eigen-decomposition) "
-                    "cannot be encoded within reach: that clause is not claimed"],
+    "assumptions": ["the singular-vector sensitivity coded in SSI_fast (Eqs 28-34: implicit derivative of the SVD) cannot be encoded within "
+                    "reach: not claimed", "O4 uses A r = lam r and the standard first-order eigenvalue perturbation l^H dA r / (l^H r) as the "
+                    "definition of dlam; composition of O1..O4 into the end-to-end delta-method statement is a paper step"],
 }
 
 
